@@ -108,7 +108,13 @@ func runC16(c *wk.Ctx) {
 		views := []vw{{"Ether", frame.Ether(), 0}, {"IP4", frame.IP4(), ref.OffIP4}, {"IP6", frame.IP6(), ref.OffIP6}, {"UDP", frame.UDP(), ref.OffUDP},
 			{"TCP", frame.TCP(), ref.OffTCP}, {"SrcAddr.MAC", frame.SrcAddr.MAC, 6}, {"DstAddr.MAC", frame.DstAddr.MAC, 0}}
 		if p := frame.Payload(); len(p) > 0 && pay >= 0 {
-			views = append(views, vw{"Payload", p, int(uintptr(ptr(p)) - uintptr(ptr(b)))})
+			off := int(uintptr(ptr(p)) - uintptr(ptr(b)))
+			if off >= 0 && off < len(b) && !ref.PayloadOK(off) {
+				// aliased, but not at a decoded offset (e.g. inside a VLAN tag): a write through it lands in a header
+				c.Viol("zerocopy:Payload:offset", fmt.Sprintf("Payload() starts at &buf[%d], the reference decoder puts the payload at %v", off, ref.OffPayload), cs())
+				continue
+			}
+			views = append(views, vw{"Payload", p, off})
 		}
 		bad := false
 		for _, v := range views {
